@@ -63,6 +63,17 @@ Theorem C14_source_is_model_toy_pvalues : forall (N : Num) Phi percentile (tests
   gen_toy_pvalues N Phi percentile teststat sb b = toy_pvalues teststat sb b.
 Proof. exact tie_toy_pvalues. Qed.
 
+(* ToyCalculator.distributions, translated on every run: the signal-like toys are drawn (first sampling call) from the model at the conditional
+   fit at the tested POI, the background-like toys (second sampling call) at the conditional fit at 0 (1 for q0); BOTH fits see the observed data
+   and the caller's init / bounds / fixed; every toy statistic is evaluated at the tested POI with the same init / bounds / fixed *)
+Theorem C14_source_is_model_distributions : forall (N : Num) (Pars Data Pdf Init Bounds Fixed : Type)
+    (fit : V N -> Data -> Pdf -> option Init -> option Bounds -> option Fixed -> Pars) (sample : nat -> Pdf -> Pars -> nat -> list Data)
+    (tsf : test_stat -> V N -> Data -> Pdf -> Init -> Bounds -> Fixed -> V N) data pdf init bounds fixed track ts ntoys poi_test,
+  gen_distributions N Pars Data Pdf Init Bounds Fixed fit sample tsf data pdf init bounds fixed track ts ntoys poi_test
+  = distributions (fun poi => fit poi data pdf (Some init) (Some bounds) (Some fixed)) (fun k pars n => sample k pdf pars n)
+                  (fun ts poi d => tsf ts poi d pdf init bounds fixed) ts ntoys poi_test.
+Proof. exact tie_distributions. Qed.
+
 Print Assumptions C14_pvalue_is_tail_fraction.
 Print Assumptions C14_pvalue_range.
 Print Assumptions C14_pvalue_antitone.
@@ -77,3 +88,4 @@ Print Assumptions C14_source_is_model_pvalue.
 Print Assumptions C14_source_is_model_expected_value.
 Print Assumptions C14_source_is_model_expected_value_args.
 Print Assumptions C14_source_is_model_toy_pvalues.
+Print Assumptions C14_source_is_model_distributions.
